@@ -314,11 +314,19 @@ func init() {
 				if mode == "all" && r.Intn(3) == 0 {
 					mode = "sf" // no lookups between the ops: Sets/Roots run on deep, uncompressed trees
 				}
+				unionsOnly := false
+				if c%10 == 9 { // more than 64 elements, unions only: the final views run on deep trees nobody has looked up
+					n = 65 + r.Intn(140)
+					mode = []string{"sf", "end"}[r.Intn(2)]
+					nops = n/2 + r.Intn(n)
+					kind = 1 + r.Intn(2)
+					unionsOnly = true
+				}
 				var b strings.Builder
 				fmt.Fprintf(&b, "ds %s %d", mode, n)
 				for k := 0; k < nops; k++ {
 					switch p := r.Intn(10); {
-					case p < 5:
+					case p < 5 || unionsOnly:
 						x, y := r.Intn(n), r.Intn(n)
 						if kind == 2 && k < n-1 { // chain-building: join k+1 to an element of the growing class
 							x, y = k+1, r.Intn(k+1)
